@@ -145,6 +145,14 @@ func bufferInOrderMode(c *Ctx, rule string, strict bool) {
 						return true
 					}
 					writing = "passed to " + full
+					// a function of the package that only asks the writer for something that cannot write (w.(http.Flusher))
+					if fn.Pkg() == p.Types {
+						for ai, a := range par.Args {
+							if ast.Unparen(a) == ast.Expr(se) && !paramMayWrite(p, fn, ai, writes, 0) {
+								writing = ""
+							}
+						}
+					}
 				} else {
 					writing = "passed to " + types.ExprString(par.Fun)
 				}
@@ -220,4 +228,97 @@ func findMethod(p *packages.Package, recv, name string) *ast.FuncDecl {
 		}
 	}
 	return nil
+}
+
+// paramMayWrite: inside the package-local function fn, parameter idx (a writer) is written to, asserted to something
+// that can write, stored, or handed on to a function that may do so. false only when every use is harmless.
+func paramMayWrite(p *packages.Package, fn *types.Func, idx int, writes map[string]bool, depth int) bool {
+	info := p.TypesInfo
+	for _, fd := range allFuncDecls(p) {
+		if info.Defs[fd.Name] != types.Object(fn) || fd.Body == nil {
+			continue
+		}
+		var prm types.Object
+		k := 0
+		for _, pl := range fd.Type.Params.List {
+			for _, nm := range pl.Names {
+				if k == idx {
+					prm = info.Defs[nm]
+				}
+				k++
+			}
+		}
+		if prm == nil {
+			return true
+		}
+		parent := map[ast.Node]ast.Node{}
+		var stack []ast.Node
+		ast.Inspect(fd.Body, func(n ast.Node) bool {
+			if n == nil {
+				stack = stack[:len(stack)-1]
+				return true
+			}
+			if len(stack) > 0 {
+				parent[n] = stack[len(stack)-1]
+			}
+			stack = append(stack, n)
+			return true
+		})
+		may := false
+		ast.Inspect(fd.Body, func(n ast.Node) bool {
+			id, ok := n.(*ast.Ident)
+			if !ok || info.Uses[id] != prm {
+				return true
+			}
+			par := parent[id]
+			for {
+				if pe, ok := par.(*ast.ParenExpr); ok {
+					par = parent[pe]
+					continue
+				}
+				break
+			}
+			switch x := par.(type) {
+			case *ast.TypeAssertExpr:
+				if x.Type == nil {
+					may = true
+					break
+				}
+				if it, ok := info.TypeOf(x.Type).Underlying().(*types.Interface); ok {
+					for i := 0; i < it.NumMethods(); i++ {
+						if writes[it.Method(i).Name()] {
+							may = true
+						}
+					}
+				} else {
+					may = true
+				}
+			case *ast.BinaryExpr:
+				if x.Op != token.EQL && x.Op != token.NEQ {
+					may = true
+				}
+			case *ast.CallExpr:
+				cf := calleeOf(info, x)
+				handled := false
+				if cf != nil && cf.Pkg() == p.Types && depth < 1 {
+					for ai, a := range x.Args {
+						if ast.Unparen(a) == ast.Expr(id) {
+							handled = true
+							if paramMayWrite(p, cf, ai, writes, depth+1) {
+								may = true
+							}
+						}
+					}
+				}
+				if !handled {
+					may = true
+				}
+			default:
+				may = true
+			}
+			return true
+		})
+		return may
+	}
+	return true
 }
